@@ -223,13 +223,15 @@ pub fn scenarios() -> Vec<Scn> {
   }
   for kind in [SubjKind::Plain, SubjKind::Behavior, SubjKind::Replay, SubjKind::Async] {
     for via_map in [false, true] {
-      let q = if kind == SubjKind::Plain || !via_map { Some(2) } else { None };
-      v.push(subject_scn(kind, vec![vec![N(1)], vec![C]], via_map, q, Some(3)));
-      v.push(subject_scn(kind, vec![vec![N(1)], vec![E(7)]], via_map, q, Some(3)));
-      v.push(subject_scn(kind, vec![vec![C], vec![E(7)]], via_map, q, Some(3)));
+      // (two short threads: bound 3 is cheap enough for the quick tier, and a hand-over of a terminal between an
+      // item in flight and the thread that signals it needs that many - seed C19-h)
+      let q = if kind == SubjKind::Plain || !via_map { Some(3) } else { None };
+      v.push(subject_scn(kind, vec![vec![N(1)], vec![C]], via_map, q, Some(4)));
+      v.push(subject_scn(kind, vec![vec![N(1)], vec![E(7)]], via_map, q, Some(4)));
+      v.push(subject_scn(kind, vec![vec![C], vec![E(7)]], via_map, q, Some(4)));
       // the same terminal signalled from two threads at once
-      v.push(subject_scn(kind, vec![vec![C], vec![C]], via_map, q, Some(3)));
-      v.push(subject_scn(kind, vec![vec![E(7)], vec![E(8)]], via_map, if via_map { None } else { q }, Some(3)));
+      v.push(subject_scn(kind, vec![vec![C], vec![C]], via_map, q, Some(4)));
+      v.push(subject_scn(kind, vec![vec![E(7)], vec![E(8)]], via_map, if via_map { None } else { q }, Some(4)));
       v.push(subject_scn(kind, vec![vec![N(1), N(2)], vec![C], vec![E(7)]], via_map, None, Some(2)));
     }
   }
